@@ -77,9 +77,9 @@ type Machine struct {
 	Quirk    bool // a behaviour pinned from the implementation contributed
 	// Soft: the run left the specified part at a point where the model can
 	// still follow the engine; the run is completed and reported unspecified.
-	Soft string
-	Loc      *time.Location
-	Stats    Stats
+	Soft  string
+	Loc   *time.Location
+	Stats Stats
 
 	alloc    int
 	scopes   []scope
@@ -122,9 +122,26 @@ func (m *Machine) Declare(p *Program) {
 	var walk func(ss []Stmt)
 	walk = func(ss []Stmt) {
 		for _, s := range ss {
-			if f, ok := s.(FuncDef); ok {
-				ff := f
-				m.Funcs[f.N] = &ff
+			switch x := s.(type) {
+			case FuncDef:
+				ff := x
+				m.Funcs[x.N] = &ff
+				walk(x.Body)
+			case If:
+				walk(x.Then)
+				walk(x.Else)
+				for e := x.ElseIf; e != nil; e = e.ElseIf {
+					walk(e.Then)
+					walk(e.Else)
+				}
+			case While:
+				walk(x.Body)
+			case Foreach:
+				walk(x.Body)
+			case Switch:
+				for _, c := range x.Cases {
+					walk(c.Body)
+				}
 			}
 		}
 	}
@@ -552,7 +569,11 @@ func (m *Machine) eval(e Expr) (Value, error) {
 				return Null(), unspec("resource: the run builds more than %d container elements", MaxAlloc)
 			}
 		}
-		return Array(out...), nil
+		arr := Array(out...)
+		if arr.TreeSize(MaxTree) > MaxTree {
+			return Null(), unspec("resource: the run builds a value of more than %d nodes", MaxTree)
+		}
+		return arr, nil
 	case HashLit:
 		// The engine evaluates the pairs in the order of their key texts, not
 		// in written order. If any pair needs more memory than a host has, the
@@ -591,6 +612,9 @@ func (m *Machine) eval(e Expr) (Value, error) {
 		}
 		if len(m.Trace) != nTrace && len(x.Keys) > 1 {
 			return Null(), unspec("host calls inside a hash literal (evaluation order is open)")
+		}
+		if h.TreeSize(MaxTree) > MaxTree {
+			return Null(), unspec("resource: the run builds a value of more than %d nodes", MaxTree)
 		}
 		return h, nil
 	case Call:
@@ -897,6 +921,10 @@ func (m *Machine) stringOp(op string, a, b string) (Value, error) {
 
 // MaxRange bounds the size of a range the model is willing to build.
 const MaxRange = 20000
+
+// MaxTree bounds the size of a single value written out as a tree (values
+// built from copies of themselves double with every step).
+const MaxTree = 20000
 
 // MaxAlloc bounds the container elements a single model run may create.
 const MaxAlloc = 200000
